@@ -556,8 +556,11 @@ func WithValidateQueueSize(n int) Option {
 // goroutines across all topics. The default is 8192.
 func WithValidateThrottle(n int) Option {
 	return func(ps *PubSub) error {
-		ps.val.validateThrottle = make(chan struct{}, n)
-		return nil
+		if n > 0 {
+			ps.val.validateThrottle = make(chan struct{}, n)
+			return nil
+		}
+		return fmt.Errorf("validate throttle must be > 0")
 	}
 }
 
